@@ -14,7 +14,10 @@ COMMON_ASSUME = [
 S_COMPONENTS = {"real": ["search (instrumented copy)", "index (instrumented copy)", "x/sync/semaphore (instrumented copy)", "query", "context", "time (synctest fake clock)"],
                 "stub": ["goroutine scheduling decisions", "sync/atomic primitives (simulated, same semantics)", "wall clock", "fsnotify (simfsn)", "prometheus metrics run atomically"]}
 
-GROUPS = ["search"]
+I_COMPONENTS = {"real": ["cmd/zoekt-sourcegraph-indexserver Queue, backoff, indexMutex (instrumented copy)", "container/heap", "time (synctest fake clock)"],
+                "stub": ["goroutine scheduling decisions", "sync primitives (simulated)", "Sourcegraph frontend, Server.Run loop and the indexer child processes are not part of any run"]}
+
+GROUPS = ["search", "ixserver"]
 
 PROPS = {
     "C20": dict(
@@ -25,5 +28,24 @@ PROPS = {
         technique="deterministic simulation: seeded schedule + fake-clock exploration of the real multiScheduler with a per-step slot-accounting invariant against a client-phase model",
         level_text="Seeded exploration of interleavings of acquire / yield-after-time-slice / cancel / deadline / release for 2-8 searches on the real multiScheduler and an instrumented copy of x/sync/semaphore, capacities 1-4, all batch divisors, time slices 1ms-5s; after every scheduler step the semaphores' occupancy is checked against the interval implied by each client's phase (no slot unaccounted, none double-released, capacity never exceeded), errors only with a done context, and at the end no slot is leaked (capacity fresh acquisitions succeed; a leak shows up as deadlock).",
         level_note="Samples schedules (not exhaustive). Trusts the simulated Mutex/select semantics and synctest's fake clock. Batch capacity is computed from the documented rule max(1, capacity/batchdiv).",
+    ),
+    "C31": dict(
+        group="ixserver", level="exploration", rule=SCHED_RULE,
+        harnesses=[dict(name="C31", quick=40000, thorough=2000000, quick_deadline_s=150, thorough_deadline_s=1500)],
+        expect_probes=["with-skipped-busy"],
+        components=I_COMPONENTS, assumptions=COMMON_ASSUME,
+        technique="deterministic simulation: seeded schedule exploration of the real indexMutex with per-step occupancy invariants and deadlock detection",
+        level_text="Seeded exploration of interleavings of 2-6 goroutines issuing repository-scoped With(repo,f) and Global(f) operations on the real indexMutex (simulated RWMutex/Mutex under the baton scheduler); f yields 0-3 times inside; after every scheduler step: at most one f per repository, a global f excludes everything else; With's return value equals whether f ran; a skip is only accepted if another With for that repository was in progress during the call; all calls return (deadlock detection).",
+        level_note="Samples schedules. The simulated RWMutex has no writer preference, which only adds schedules. Occupancy counters are maintained by the harness's f bodies.",
+    ),
+    "C30": dict(
+        group="ixserver", level="exploration",
+        rule="sequential sub-mode: one evaluation = one generated operation history (3-40 operations on <=5 repository ids with fake-clock advances) executed on the real Queue and compared step by step with the reference model; distinct = distinct histories (hash of the operation/result list) with >=3 operations. concurrent sub-mode: one evaluation = one simulated run of 2-3 clients (<=24 operations), the recorded invoke/return history (stamped with scheduler step numbers) is checked with porcupine against the nondeterministic model; distinct = distinct schedule hashes with >=2 context switches whose porcupine verdict was definite.",
+        harnesses=[dict(name="C30", quick=30000, thorough=1500000, quick_deadline_s=120, thorough_deadline_s=900),
+                   dict(name="C30/conc", quick=20000, thorough=800000, quick_deadline_s=120, thorough_deadline_s=900)],
+        components=I_COMPONENTS, assumptions=COMMON_ASSUME + ["the reference model is written from the doc comments of queue.go/backoff.go; MaybeRemoveMissing may skip only when the tracked count equals the listed count (documented heuristic)", "concurrent sub-mode freezes the clock (backoff after a failure lasts until reset) so that linearization does not depend on time"],
+        technique="deterministic simulation: generated operation/clock histories against an executable reference model; concurrent histories checked for linearizability with porcupine",
+        level_text="Generated histories of AddOrUpdate/Pop/Len/Bump/SetIndexed(success|fail)/MaybeRemoveMissing over <=5 repository ids (including ids the queue never saw), with fake-clock advances across the backoff periods, run on the real Queue and compared operation by operation (and by a final drain) with a small priority-queue model; plus 2-3 concurrent clients under the seeded scheduler whose invoke/return history must be linearizable w.r.t. the nondeterministic model (porcupine, 20 s timeout, Unknown never reported).",
+        level_note="Samples histories and schedules. The model encodes the documented ordering key (not indexed first, non-failed first, FIFO), backoff = min(max, n*duration), removal keyed by repository id.",
     ),
 }
